@@ -599,6 +599,10 @@ def run(ctx):
     r12 = ctx.rule("C01.R12", "a message whose send was reported as failed is never delivered: a lower-layer send failure other than EAGAIN is terminal")
     c03.check_terminal_failures(P, r12, tables)
 
+    # ------------------------------------------------------------------ R14
+    r14 = ctx.rule("C01.R14", "an accepted frame still in the library's buffer is re-attempted by every receive that reads (= C03.R9)")
+    c03.check_receive_flushes(P, r14, tables)
+
     # ------------------------------------------------------------------ R13
     # both ends may hold a frame the kernel refuses (each peer's buffers are full).  The way out is that somebody reads:
     # a receive whose flush of the own pending output was merely refused (EAGAIN) must go on and read.
